@@ -194,6 +194,64 @@ def ledger_wildcard_layer(ctx):
                 ctx.record_violation('wildcard-row-width', '%s: rows are not as wide as the description' % q, payload={'query': q})
 
 
+LEDGER_TARGETS = [
+    # one visible target whose values are themselves tuples (positions, amounts, costs, directives), next to helper targets
+    'SELECT position ORDER BY date', 'SELECT position ORDER BY date, lineno DESC', 'SELECT first(position) GROUP BY account',
+    'SELECT amount FROM #prices ORDER BY date', 'SELECT position.cost ORDER BY date', 'SELECT price ORDER BY lineno',
+    'SELECT entry ORDER BY date', 'SELECT last(price) GROUP BY account HAVING count(*) > 0', 'SELECT position', 'SELECT DISTINCT position.units ORDER BY date',
+    'SELECT position, price ORDER BY date', 'SELECT sum(position) GROUP BY account ORDER BY account',
+    # attribute access: named by the whole expression as written
+    'SELECT account, position.units', 'SELECT entry.date, position.units.number', 'SELECT amount.number, amount.currency FROM #prices',
+    'SELECT position.units.currency, units(position).currency', 'SELECT * FROM (SELECT account, position.units)',
+    'SELECT entry.narration, entry.meta ORDER BY date', 'SELECT position.cost.number AS n, position.cost.date',
+]
+
+
+def ledger_targets_layer(ctx):
+    """targets over the ledger tables whose values are structured: rows are plain tuples as wide as the description,
+    whatever the values are, and attribute targets are named by their source text"""
+    import ledgers
+    text, entries, errors, options = ledgers.gen_ledger(ctx.rng, ntxn=8)
+    conn = ledgers.connect(entries, errors, options)
+    for q in LEDGER_TARGETS:
+        ctx.evaluations += 1
+        ctx.count('ledger-targets')
+        ctx.nontrivial_hashes.add(hash(('ledger-targets', q)))
+        try:
+            stmt = parser.parse(q)
+            cur = conn.execute(q)
+            desc, rows = cur.description, cur.fetchall()
+        except Exception as exc:  # noqa: BLE001
+            ctx.record_violation('ledger-target-raises-%s' % type(exc).__name__, '%s: %r' % (q, exc), payload={'query': q, 'ledger': text})
+            continue
+        bad = [r for r in rows if type(r) is not tuple or len(r) != len(desc)]
+        if bad:
+            ctx.record_violation('row-width', '%s: a row is %r (%s of width %d) under a description of width %d' % (
+                q, bad[0], type(bad[0]).__name__, len(bad[0]), len(desc)), payload={'query': q, 'ledger': text})
+            continue
+        if isinstance(stmt.targets, ast.Asterisk):
+            inner = stmt.from_clause.targets if hasattr(stmt.from_clause, 'targets') else None
+            targets = inner
+        else:
+            targets = stmt.targets
+        if targets is None or len(desc) != len(targets):
+            ctx.record_violation('description-length', '%s: %d described columns' % (q, len(desc)), payload={'query': q})
+            continue
+        for col, t in zip(desc, targets):
+            if t.name is not None:
+                ok = col.name == t.name
+            elif isinstance(t.expression, ast.Column):
+                ok = col.name == t.expression.name
+            else:
+                ok = col.name in q
+                try:
+                    ok = ok and parser.parse('SELECT ' + col.name).targets[0].expression == t.expression
+                except Exception:  # noqa: BLE001
+                    ok = False
+            if not ok:
+                ctx.record_violation('naming-rule', '%s: column named %r for target %r' % (q, col.name, t.expression), payload={'query': q})
+
+
 def statement_kind_layer(ctx):
     """BALANCES and JOURNAL are SELECT statements in disguise: their columns are named by the same rule (the name of an
     expression column parses back to the expression that computes it)"""
@@ -233,6 +291,7 @@ def run(ctx):
     corpus_layer(ctx)
     statement_kind_layer(ctx)
     ledger_wildcard_layer(ctx)
+    ledger_targets_layer(ctx)
     rng = ctx.rng
     table = None
     shared = None
